@@ -67,8 +67,16 @@ func ident(s string) string {
 type def struct{ name, body string }
 
 func main() {
+	if len(os.Args) >= 4 && os.Args[1] == "access" {
+		js := ""
+		if len(os.Args) > 4 {
+			js = os.Args[4]
+		}
+		accessMain(os.Args[2], os.Args[3], js)
+		return
+	}
 	if len(os.Args) != 4 || os.Args[1] != "consts" {
-		die(fmt.Errorf("usage: extract consts <repo> <out.lean>"))
+		die(fmt.Errorf("usage: extract consts <repo> <out.lean> | extract access <repo> <out.lean> [out.json]"))
 	}
 	repo, out := os.Args[2], os.Args[3]
 	cfg := &packages.Config{Mode: packages.NeedName | packages.NeedFiles | packages.NeedSyntax | packages.NeedTypes | packages.NeedTypesInfo | packages.NeedImports | packages.NeedDeps, Dir: repo,
